@@ -7,9 +7,10 @@ ipv4, ipv6, u64 dec/hex) under ASan+UBSan with exact-size input blocks, NULL/0 v
 exact-size outputs, view-range checks, an error-channel check and a per-op watchdog.  The direct oracle
 below reads only the implementation's lines.
 
-Model side (stage 2, extra_stages): the hand-written Lean model of source/host_utils.c
-(aws_host_utils_is_ipv6) is run against the same harness on `p ipv6` ops; the theorems of
-AwsVerif.Props.C04 are about that model."""
+Model side (stage 2, extra_stages): the hand-written checked-memory Lean models of source/host_utils.c (is_ipv6, is_ipv4),
+source/uuid.c (init_from_str, to_str) and percent-decoding (aws_byte_buf_append_decoding_uri + aws_byte_cursor_read_hex_u8) are run
+against the same harness on `p ipv6 / ipv4 / uuid / uuidstr / uridec` ops.  Generated layer (regen): Gen/C04Consts.lean (guards, offsets
+and lengths cut out of the current source) and Gen/CborConsts.lean (claim table of cbor_stream_decode), with bridge theorems."""
 import base64, os, struct, sys, time
 from lib.core import Case
 from lib import cbuild, core
@@ -26,9 +27,13 @@ HARNESS = dict(
                  ["-include", os.path.join(cbuild.VERIF, "harness", "parsers_pt_rename.h")], "encoding_portable")],
 )
 TIMEOUT = 900
-TRUSTED = ["hand model lean/AwsVerif/Model/HostUtils.lean (aws_host_utils_is_ipv6; tied by the stage-2 correspondence run only)",
+TRUSTED = ["hand models lean/AwsVerif/Model/{HostUtils,Uuid,PercentDecode,Scanf}.lean (is_ipv6, is_ipv4, uuid from_str/to_str, percent-decoding; "
+           "tied by the stage-2 correspondence run and by the bridge theorems c04_gen_* to constants regenerated from the source)",
+           "gen/c04_gen.py (textual extraction of guards / offsets / lengths) and gen/cbor_gen.py (claim table of cbor_stream_decode)",
+           "glibc 2.36 semantics of sscanf %02hhx / %03hu / %1s as transcribed in Model/Scanf.lean (confirmed by the correspondence run only)",
            "harness/parsers.c monitors (view ranges, error channel, canaries, watchdog); gcc ASan/UBSan red zones",
-           "cJSON, the sscanf-based parsers (aws_uuid_init_from_str, aws_host_utils_is_ipv4) and the AVX2 base64 codec have no model: "
+           "cJSON and the AVX2 base64 codec have no model, and sscanf itself is modelled only as a function of the local NUL-terminated copy "
+           "(what it reads inside libc is not observable: ASan does not see an over-read of the 16/37-byte stack copies): "
            "for them C04 is decided by sanitizer-monitored execution alone"]
 ASSUMPTIONS = ["memchr/memcpy/memcmp/sscanf/strtol/timegm/mktime have their ISO C meaning and stay inside the objects they are given",
                "UBSan's 'null pointer passed as argument' on memchr/memcpy(NULL, ., 0) for the NULL/0 view is recorded, not counted as a violation"]
@@ -37,11 +42,29 @@ RULE = ("inputs for 16 parser entry points, three streams each (grammar-derived 
         "distinct by op-file hash")
 NOT_PROVED = []
 
+def regen(ctx):
+    """generated layer: Gen/C04Consts.lean (guards / offsets / lengths of read_hex_u8, uuid.c, host_utils.c cut out of the current
+    source by gen/c04_gen.py) and Gen/CborConsts.lean (claim_bytes' test and the per-initial-byte claim table of
+    cbor_stream_decode, gen/cbor_gen.py, shared with C10); the Props this file re-states (C01, C05, C12, C13) are re-proved against
+    their own regenerated layers as well, so an edit that breaks one of them breaks C04's theorem list"""
+    from gen import c04_gen
+    try:
+        txt, _ = c04_gen.generate(cbuild.REPO)
+    except c04_gen.GenError as e:
+        raise core.GenError(str(e))
+    core.write_if_changed(os.path.join(core.LEAN, "AwsVerif", "Gen", "C04Consts.lean"), txt)
+    import importlib
+    for name in ("c10", "c13", "c01", "c05", "c12"):
+        m = importlib.import_module("props." + name)
+        if hasattr(m, "regen"):
+            m.regen(ctx)
+
+
 PARSERS = ["xml", "json", "cbor", "cbor_consume", "uri", "query", "uridec", "date", "b64", "b64p", "hex", "utf8",
-           "uuid", "ipv4", "ipv6", "u64"]
+           "uuid", "uuidstr", "ipv4", "ipv6", "u64"]
 # relative share of the inputs
 WEIGHT = {"xml": 14, "json": 7, "cbor": 8, "cbor_consume": 8, "uri": 9, "query": 5, "uridec": 5, "date": 8, "b64": 6,
-          "b64p": 4, "hex": 4, "utf8": 6, "uuid": 4, "ipv4": 4, "ipv6": 5, "u64": 3}
+          "b64p": 4, "hex": 4, "utf8": 6, "uuid": 4, "uuidstr": 1, "ipv4": 4, "ipv6": 5, "u64": 3}
 QUICK_TOTAL = 150000
 THOROUGH_TOTAL = 3200000
 THOROUGH_ROUND = 200000
@@ -302,7 +325,16 @@ def gen_ipv6(rng):
     return a + b"%25" + zone
 
 
+AT_ENDINGS = [b"http://user@", b"u@", b"@", b"http://u:p@", b"http://@", b"//@", b"a://b@", b"http://user:@", b"http://:@",
+              b"s3://a@b@", b"http://user@[", b"http://user@?", b"http://user@/", b"http://user@:", b"http://user@:80", b"x@[]",
+              b"http://[::1]@", b"@@", b"http://a%40@", b"u:p@h@"]
+
+
 def gen_uri(rng, size):
+    if rng.random() < 0.06:
+        # authority text that ends right after '@' (or right after the userinfo): exact-size view, nothing behind it
+        e = rng.choice(AT_ENDINGS)
+        return e if rng.random() < 0.7 else gen_uri(rng, size // 2 + 8)[:rng.randint(0, 12)].replace(b"/", b"") + b"@"
     out = b""
     if rng.random() < 0.8:
         out += rng.choice([b"http", b"https", b"s3", b"ws", b"a+b.c-d", b"file"]) + b"://"
@@ -344,8 +376,20 @@ def gen_query(rng, size):
     return b"&".join(parts)
 
 
+PCT_TAILS = [b"%", b"%4", b"%A", b"%f", b"%0", b"%%", b"%4g", b"%g4", b"%41", b"%zz", b"%\0", b"%4\0"]
+
+
 def gen_uridec(rng, size):
-    return _pct(rng, min(size, 600))
+    body = _pct(rng, min(size, 600))
+    if rng.random() < 0.3:
+        # the text ENDS in '%', '%X' or '%XY': the view is an exact-size heap block, so a decoder that looks for the
+        # second hex digit of a truncated escape reads the red zone
+        body = body[:rng.choice([0, 0, 1, 2, len(body)])] + rng.choice(PCT_TAILS)
+    return body
+
+
+def gen_uuidstr(rng, size):
+    return rng.randbytes(rng.choice([16, 16, 16, 16, 0, 1, 15, 17, 40]))
 
 
 WD = [b"Mon", b"Tue", b"Wed", b"Thu", b"Fri", b"Sat", b"Sun"]
@@ -454,7 +498,7 @@ def gen_u64(rng, size):
 GEN = {
     "xml": gen_xml, "json": gen_json, "cbor": gen_cbor, "cbor_consume": gen_cbor, "uri": gen_uri, "query": gen_query,
     "uridec": gen_uridec, "date": gen_date, "b64": gen_b64, "b64p": gen_b64, "hex": gen_hex, "utf8": gen_utf8,
-    "uuid": gen_uuid, "ipv4": lambda rng, size: gen_ipv4(rng), "ipv6": lambda rng, size: gen_ipv6(rng), "u64": gen_u64,
+    "uuid": gen_uuid, "uuidstr": gen_uuidstr, "ipv4": lambda rng, size: gen_ipv4(rng), "ipv6": lambda rng, size: gen_ipv6(rng), "u64": gen_u64,
 }
 DELIMS = {
     "xml": b"<>/=\"' ?!", "json": b"{}[]:,\"\\", "uri": b":/?#@[]&=%", "query": b"&=%", "uridec": b"%", "date": b" ,:-+TZ.",
@@ -551,6 +595,8 @@ def opts_for(rng, parser):
         return xml_opts(rng)
     if parser == "uridec":
         return " pre=%d cap=%d" % (rng.choice([0, 0, 1, 7, 100]), rng.choice([0, 0, 1, 8, 100, 5000]))
+    if parser == "uuidstr":
+        return " pre=%d slack=%d" % (rng.choice([0, 0, 1, 7]), rng.choice([0, 1, 35, 36, 37, 37, 38, 64]))
     if parser == "utf8":
         return " chunk=%d" % rng.randint(0, 2 ** 32) + (" failat=%d" % rng.randint(1, 20) if rng.random() < 0.1 else "")
     return ""
@@ -592,9 +638,31 @@ def gen_inputs(rng, total, workers=16):
     return [Case(ops, {"streams": streams}) for r in res for (ops, streams) in r]
 
 
+def cbor_head_cases(rng):
+    """every initial byte of cbor_stream_decode x every truncation of its argument / payload (0..9 bytes behind the head, and for
+    the string heads the declared length, one less and one more), each as its own exact-size block, through both drivers"""
+    cases = []
+    for parser in ("cbor", "cbor_consume"):
+        ops = []
+        for b in range(256):
+            tails = [rng.randbytes(t) for t in range(10)]
+            ai = b & 31
+            if (b >> 5) in (2, 3):       # byte / text strings: payload exactly / one short / one over the declared length
+                n = ai if ai < 24 else rng.choice([0, 1, 3])
+                lenbytes = b"" if ai < 24 else (n.to_bytes({24: 1, 25: 2, 26: 4, 27: 8}[ai], "big") if ai < 28 else b"")
+                tails += [lenbytes + bytes(max(0, n - 1)), lenbytes + bytes(n), lenbytes + bytes(n + 1), lenbytes[:-1]]
+            for t in tails:
+                ops.append("p %s %s" % (parser, hx(bytes([b]) + t)))
+            if len(ops) >= 300:
+                cases.append(Case(ops, {"streams": {parser + "/heads": len(ops)}})); ops = []
+        if ops:
+            cases.append(Case(ops, {"streams": {parser + "/heads": len(ops)}}))
+    return cases
+
+
 def gen_cases(rng, tier):
     # thorough: the first round only; extra_stages runs the remaining rounds (memory: hex text of a round ~ 0.3 GB)
-    return gen_inputs(rng, QUICK_TOTAL if tier == "quick" else THOROUGH_ROUND)
+    return cbor_head_cases(rng) + gen_inputs(rng, QUICK_TOTAL if tier == "quick" else THOROUGH_ROUND)
 
 
 # ------------------------------------------------------------------------------------------------ oracle
@@ -838,32 +906,80 @@ def classify(case, detail):
 
 
 # ------------------------------------------------------------------------------------------------ stage 2: model vs implementation
-def model_cases(rng, tier):
-    n = 6000 if tier == "quick" else 200000
-    cases = []
-    ops = []
-    # hand-written boundary inputs first
-    fixed = [b"", b":", b"::", b":::", b"::1", b"1::", b"1:2:3:4:5:6:7:8", b"1:2:3:4:5:6:7:8:9", b"1:2:3:4:5:6:7::", b"::2:3:4:5:6:7:8",
-             b"1::3:4:5:6:7:8", b"1:2:3:4:5:6:7", b"12345::", b"1::2::3", b":1::", b"::1:", b"fe80::1%eth0", b"fe80::1%25eth0", b"fe80::1%",
-             b"fe80::1%25", b"fe80::1%2", b"fe80::1%a%!", b"%", b"%%", b"::%", b"ffff:ffff:ffff:ffff:ffff:ffff:ffff:ffff", b"f" * 40, b"::" + b"0" * 37,
-             b"0:" * 19 + b"0", b"::g", b"::G", b"::1\0", b"1:2:3:4:5:6:7:8%x%25", b"::%25a", b"::%25", b"::%250"]
-    for f in fixed:
-        ops.append("p ipv6 " + hx(f))
-    for _ in range(n):
+UUID_ALPHA = b"0123456789abcdefABCDEFxX+- \t\n\r\v\f-\0g."
+IPV4_ALPHA = b"0123456789.+- \t\nx\0"
+PCT_ALPHA = b"ab%%%0123456789abcdefABCDEFgz\0"
+
+
+def model_inputs(rng, kind):
+    if kind == "ipv6":
         r = rng.random()
         if r < 0.35:
-            d = gen_ipv6(rng)
-        elif r < 0.75:
-            d = mutate(rng, "ipv6", gen_ipv6(rng))[:200]
-        elif r < 0.9:
-            d = bytes(rng.choice(b"0123456789abcdefABCDEF::::%%%25gz") for _ in range(rng.choice([0, 1, 2, 3, 38, 39, 40, 41, rng.randint(0, 60)])))
+            return gen_ipv6(rng)
+        if r < 0.75:
+            return mutate(rng, "ipv6", gen_ipv6(rng))[:200]
+        if r < 0.9:
+            return bytes(rng.choice(b"0123456789abcdefABCDEF::::%%%25gz") for _ in range(rng.choice([0, 1, 2, 3, 38, 39, 40, 41, rng.randint(0, 60)])))
+        return rng.randbytes(rng.randint(0, 48))
+    if kind == "uuid":
+        b = bytearray(gen_uuid(rng, 36)[:36] if rng.random() < 0.9 else rng.randbytes(36))
+        for _ in range(rng.choice([0, 0, 1, 2, 4])):
+            if b:
+                b[rng.randrange(len(b))] = rng.choice(UUID_ALPHA)
+        r = rng.random()
+        if r < 0.15:
+            b = b[:rng.choice([0, 1, 35, rng.randint(0, 36)])]
+        elif r < 0.35:
+            b += bytes(rng.choice(UUID_ALPHA) for _ in range(rng.randint(1, 6)))
+        elif r < 0.4:
+            b[rng.randrange(len(b) + 1):0] = b" "
+        return bytes(b)
+    if kind == "ipv4":
+        r = rng.random()
+        if r < 0.55:
+            b = bytearray(b".".join(str(rng.choice([0, 1, 9, 25, 99, 100, 255, 256, 260, 999, 1000, rng.randint(0, 300)])).encode() for _ in range(4)))
+            for _ in range(rng.choice([0, 0, 1, 2, 3])):
+                i = rng.randrange(len(b) + 1); b[i:i] = bytes([rng.choice(IPV4_ALPHA)])
+            return bytes(b)
+        return bytes(rng.choice(IPV4_ALPHA) for _ in range(rng.choice([0, 1, 7, 14, 15, 16, 17, rng.randint(0, 18)])))
+    if kind == "uridec":
+        r = rng.random()
+        if r < 0.5:
+            return bytes(rng.choice(PCT_ALPHA) for _ in range(rng.randint(0, 14)))
+        if r < 0.8:
+            return gen_uridec(rng, rng.choice([0, 1, 2, 3, 8, 40]))
+        return mutate(rng, "uridec", gen_uridec(rng, 20))[:300]
+    return rng.randbytes(rng.choice([16, 16, 16, 0, 3, 20]))    # uuidstr
+
+
+def model_cases(rng, tier):
+    n = 6000 if tier == "quick" else 100000
+    fixed6 = [b"", b":", b"::", b":::", b"::1", b"1::", b"1:2:3:4:5:6:7:8", b"1:2:3:4:5:6:7:8:9", b"1:2:3:4:5:6:7::", b"::2:3:4:5:6:7:8",
+              b"1::3:4:5:6:7:8", b"1:2:3:4:5:6:7", b"12345::", b"1::2::3", b":1::", b"::1:", b"fe80::1%eth0", b"fe80::1%25eth0", b"fe80::1%",
+              b"fe80::1%25", b"fe80::1%2", b"fe80::1%a%!", b"%", b"%%", b"::%", b"ffff:ffff:ffff:ffff:ffff:ffff:ffff:ffff", b"f" * 40, b"::" + b"0" * 37,
+              b"0:" * 19 + b"0", b"::g", b"::G", b"::1\0", b"1:2:3:4:5:6:7:8%x%25", b"::%25a", b"::%25", b"::%250"]
+    u = b"123e4567-e89b-12d3-a456-426614174000"
+    ops = ["p ipv6 " + hx(f) for f in fixed6]
+    ops += ["p uuid " + hx(x) for x in [b"", u, u[:35], u + b"x", b" " + u[1:], b"0x" + u[2:], b"-1" + u[2:], b"+f" + u[2:], u.upper(), u.replace(b"-", b" "),
+                                        u[:8] + b" " + u[9:], u[:35] + b"\0", b"\0" * 36, b"-" * 36, b"0" * 36, u[:9] + b" " + u[10:]]]
+    ops += ["p ipv4 " + hx(x) for x in [b"", b"1.2.3.4", b"1.2.3.4 ", b"1.2.3.4x", b" 1.2.3.4", b"1. 2.3.4", b"+1.2.3.4", b"-1.2.3.4", b"-0.0.0.0", b"001.2.3.4",
+                                        b"0001.2.3.4", b"1.2.3.4.", b"1.2.3.", b"256.1.1.1", b"255.255.255.255", b"1.2.3.4\n", b"1.2.3.4 x", b"1..2.3",
+                                        b"1.2.3.4\0junk", b"123.123.123.123", b"123.123.123.1234", b"1234567890123456", b"1.2.3.+4", b"1.2.3.-0", b"1.2.3.+"]]
+    ops += ["p uridec %s pre=%d cap=%d show=1" % (hx(x), pre, cap) for x in [b"", b"%", b"%4", b"%41", b"a%", b"a%4", b"a%41", b"%zz", b"%4z", b"%z4", b"%%41", b"%25",
+                                                                            b"abc", b"%41%4", b"%41%", b"\0%00", b"%fF%Ff"] for (pre, cap) in [(0, 0), (3, 3), (1, 40)]]
+    ops += ["p uuidstr %s pre=%d slack=%d" % (hx(x), pre, sl) for x in [bytes(16), bytes(range(16)), b"\xff" * 16, b"", b"\x12\x3e"] for (pre, sl) in
+            [(0, 37), (0, 36), (0, 0), (5, 37), (5, 36), (2, 64)]]
+    kinds = ["ipv6"] * 4 + ["uuid"] * 3 + ["ipv4"] * 3 + ["uridec"] * 3 + ["uuidstr"]
+    for _ in range(n):
+        k = rng.choice(kinds)
+        d = model_inputs(rng, k)
+        if k == "uridec":
+            ops.append("p uridec %s pre=%d cap=%d show=1" % (hx(d), rng.choice([0, 0, 1, 7]), rng.choice([0, 0, 1, 8, 100])))
+        elif k == "uuidstr":
+            ops.append("p uuidstr %s pre=%d slack=%d" % (hx(d), rng.choice([0, 1, 5]), rng.choice([0, 1, 35, 36, 37, 38, 50])))
         else:
-            d = rng.randbytes(rng.randint(0, 48))
-        ops.append("p ipv6 " + hx(d))
-        if len(ops) >= 200:
-            cases.append(Case(ops, {"stage": "model"})); ops = []
-    if ops:
-        cases.append(Case(ops, {"stage": "model"}))
+            ops.append("p %s %s" % (k, hx(d)))
+    cases = [Case(ops[k:k + 200], {"stage": "model"}) for k in range(0, len(ops), 200)]
     return cases
 
 
@@ -882,10 +998,12 @@ def extra_stages(ctx):
     _summary(ctx, _ACC["impl"])
     # stage 2: the Lean model of aws_host_utils_is_ipv6 against the same harness
     p.COMPONENT = "hostutils"
+    p.C_ENV = {"C04_PREWARM": "1"}   # the one harmless UBSan nonnull report of is_ipv4(NULL,0) is emitted before the first case
     try:
         core.correspondence_stage(ctx, model_cases(ctx.rng, ctx.tier), exe)
     finally:
         p.COMPONENT = None
+        p.C_ENV = None
     if ctx.tier == "thorough":
         lim = recursion_limit(exe)
         ctx.notes.append("measured cbor consume_next_whole_data_item recursion limit (asan build, default stack): deepest surviving nesting = %s" % lim)
@@ -923,26 +1041,33 @@ def replay(ctx, obj):
 MANIFEST = dict(
     category="proof",
     design_ref="5.4",
-    text=("Two layers. (1) Proof: Lean 4 theorems over hand-written models that read the input only through a checked cursor "
-          "(any offset outside the input block is a fault). Proved in Props/C04.lean for aws_host_utils_is_ipv6: for every byte string and "
-          "both values of is_uri_encoded no dereference leaves the input (c04_ipv6_no_oob), the run always ends with a verdict "
-          "(c04_ipv6_total), the verdict equals a cursor-free specification (c04_ipv6_spec / c04_ipv6_accepts_iff) whose address part "
-          "is characterised declaratively (c04_ipv6_addr_accept_iff: 2..39 hex/colon characters, no single colon at either end, hex runs "
-          "<= 4, either no '::' and exactly 7 colons or one '::' and at most 8 colons). The same theorem list re-states (type_of%) the "
-          "memory-safety / totality theorems proved with the other components: XML no-OOB / fuel / returns / views-inside (C12), URI views "
-          "inside (C13), base64 and hex decode store bounds (C05), byte-cursor operations in bounds and unsigned-integer parsing (C01); "
-          "the CBOR and date-time readers are total by construction of their models (C10, C19) and their memory safety is decided by "
-          "the sanitizer run. The is_ipv6 model is tied to /repo by a correspondence run "
-          "against host_utils.c rebuilt from the working tree. (2) Sanitizer-monitored execution of EVERY decoder of the current tree on "
-          "arbitrary bytes (grammar-derived valid / mutated / uniform random streams, exact-size heap blocks and NULL/0 views, canary-filled "
-          "exact-size outputs, view-range checks on every cursor handed back, error-channel check, per-op watchdog; 150 000 inputs quick, "
-          "3.2 M thorough). cJSON (aws_json_value_new_from_string), the sscanf-based parsers (aws_uuid_init_from_str, "
-          "aws_host_utils_is_ipv4) and the AVX2 base64 codec have no model: for them C04 is decided by the sanitizer-monitored execution "
-          "alone. Open finding F6: aws_cbor_decoder_consume_next_whole_data_item recurses once per nesting level without a limit (stack "
-          "overflow beyond ~52 000 levels in the ASan build, ~131 000 at -O2, 8 MiB stack); CBOR totality is claimed only below that depth."),
-    note=("Trusted: Lean kernel; hand-written models (tied by correspondence runs only); harness monitors and ASan/UBSan red zones; libc "
-          "(memchr, memcpy, memcmp, sscanf, strtol, timegm, mktime). UBSan's nonnull-attribute reports for memchr/memcpy(NULL, ., 0) on the "
-          "NULL/0 view (xml_parser.c:378, uri.c:278/307/308, host_utils.c:29) are recorded in the evidence, not counted as violations. "
-          "Not covered: inputs beyond 64 KiB in the sampled streams, allocator failure."),
-    technique="Lean 4 theorems over checked-cursor models + model/implementation differential run + ASan/UBSan-monitored structured fuzzing of every decoder",
+    text=("Two layers. (1) Proof: Lean 4 theorems over hand-written models that touch the input only through a checked cursor (any offset "
+          "outside the exact-size input block, and any store outside the output capacity, is a fault). Proved in Props/C04.lean, for every "
+          "byte string: aws_host_utils_is_ipv6 (no read outside the input, always a verdict, verdict = a cursor-free specification with a "
+          "declarative characterisation of the accepted addresses); aws_host_utils_is_ipv4 (longer than 15 bytes refused unread, otherwise "
+          "exactly len bytes copied, verdict = scan of the local copy); aws_byte_buf_append_decoding_uri + aws_byte_cursor_read_hex_u8 (a cursor "
+          "of fewer than 2 bytes is refused without any read, no read outside the view and no store outside the reserved capacity for every "
+          "input incl. those ending in %, %X, %XY, fuel cursor->len suffices, outcome = C13's pure decoder, appended length <= input length); "
+          "aws_uuid_init_from_str / aws_uuid_to_str (shorter than 36 refused unread, otherwise exactly bytes [0,36) read and the tail ignored; "
+          "to_str refuses iff fewer than 37 bytes are free and otherwise writes exactly [len,len+37); from_str(to_str u) = u); "
+          "cbor_stream_decode for ALL 256 initial bytes and every truncation (never dereferences outside [0,source_size), reports <= "
+          "source_size, on FINISHED the dereferenced bytes and the string view are exactly the claimed bytes, otherwise reports 0) — this one "
+          "interprets the per-initial-byte claim table and claim_bytes' test REGENERATED from streaming.c on every run. Guards, offsets and "
+          "lengths of read_hex_u8, uuid.c and host_utils.c are regenerated too (gen/c04_gen.py) and tied to the models by bridge theorems "
+          "c04_gen_*, so an edit of one of them stops the theorem list from compiling. The list also re-states the XML (C12), URI (C13), "
+          "base64/hex (C05) and byte-cursor / unsigned-integer (C01) safety theorems. The models are tied to /repo by a correspondence run "
+          "(ipv6, ipv4, uuid, uuid to_str + round trip, percent-decoding with decoded bytes) against the code rebuilt from the working tree. "
+          "(2) Sanitizer-monitored execution of EVERY decoder of the current tree on arbitrary bytes (valid / mutated / random streams, "
+          "every input an exact-size heap copy and also the NULL/0 view, every CBOR head x every truncation, texts ending in an incomplete "
+          "escape or right after '@', canary-filled exact-size outputs, view-range checks, error-channel check, watchdog; 155 000 inputs "
+          "quick, 3.2 M thorough). cJSON (aws_json_value_new_from_string), what sscanf does inside libc (UUID, IPv4) and the AVX2 base64 "
+          "codec have no model: for them C04 is decided by the sanitizer-monitored execution alone. Open finding F6: "
+          "aws_cbor_decoder_consume_next_whole_data_item recurses once per nesting level without a limit (stack overflow beyond ~52 000 "
+          "levels in the ASan build, ~131 000 at -O2, 8 MiB stack); CBOR totality is claimed only below that depth."),
+    note=("Trusted: Lean kernel; hand-written models (tied by correspondence runs and bridge theorems only); the textual generators; harness "
+          "monitors and ASan/UBSan red zones; libc (memchr, memcpy, memcmp, sscanf as modelled for glibc 2.36, strtol, timegm, mktime). "
+          "UBSan's nonnull-attribute reports for memchr/memcpy(NULL, ., 0) on the NULL/0 view are recorded in the evidence, not counted as "
+          "violations. Not covered: inputs beyond 64 KiB in the sampled streams, allocator failure, an over-read of sscanf's local stack "
+          "copies (invisible to ASan; guarded by the bridge theorem c04_gen_host_utils / c04_gen_uuid only)."),
+    technique="Lean 4 theorems over checked-cursor models + generated claim tables with bridge theorems + model/implementation differential run + ASan/UBSan-monitored structured fuzzing of every decoder",
 )
